@@ -272,6 +272,7 @@ def run(ctx):
     snapshot_slots(db, rep, "D5c-SNAPSHOT-SLOTS")
     d9_acc_index(db, rep)
     d10_temp_reg_distinct(db, rep)
+    d11_exec_only_if_executable(db, rep)
     # D8: the executor a generated wrapper hands to a detached code object carries n and (for 2-D) m: emulation, the fallback
     # of every wrapper, reads them from there (shared with C07 D1)
     import importlib as _il
@@ -434,3 +435,55 @@ def d10_temp_reg_distinct(db, rep):
                   "orc_compiler_get_temp_reg can return register `%s` (line %s) without moving compiler->min_temp_reg past it or marking it allocated: the "
                   "next request within the same instruction can return the same register - with one register free a rule that needs two temporaries gets "
                   "the same one twice, the compile succeeds and the code computes garbage instead of falling back" % (rv, r.line), line=r.line)
+
+
+def d11_exec_only_if_executable(db, rep, rule="D11-EXEC-ONLY-IF-EXECUTABLE"):
+    """D11: "whenever native code is not used ... still produces exactly the emulation results".  Native code cannot be used
+    when the target it was generated for is not executable on this machine (another architecture's back end, the C back ends,
+    an x86 level the CPU lacks): orc_compiler_compile_program may point program->code_exec at the generated code only where
+    compiler->target->executable is known to be set, and on every other path to the success return the code object's own
+    entry (orccode->exec, what a code-only executor calls) must have been replaced by the fallback."""
+    from flow import path_to
+    f = db.func("orc_compiler_compile_program", "orccompiler")
+    rep.saw(f)
+    fc = Facts(f)
+    installs = [x for x in f.walk() if x.k == "BinaryOperator" and x.op == "=" and (access_path(x.c[0]) or "").endswith("program->code_exec")
+                and (access_path(strip_casts(x.c[1])) or "").endswith("orccode->exec")]
+    if not installs:
+        raise AnalysisBroken("orc_compiler_compile_program: installation of the generated code as code_exec not found")
+    for x in installs:
+        conds = [(access_path(c[0]), c[1]) for c in fc.conds(x) if c[0] != "switch"]
+        ok = any((p or "").endswith("target->executable") and pol for p, pol in conds)
+        rep.check(ok, rule, where(f), "code_exec=orccode->exec@%s" % x.line,
+                  "the generated code becomes code_exec only where target->executable is set",
+                  "orc_compiler_compile_program installs the generated code as program->code_exec without knowing that the target is executable on this "
+                  "machine: orc_program_compile_for_target (p, neon / c / an x86 level the CPU lacks) returns OK and orc_executor_run jumps into foreign or "
+                  "empty code instead of emulating", line=x.line)
+    # the detached entry: on the success return, either executable is known or orccode->exec was redirected
+    rets = [r for r in f.walk() if r.k == "ReturnStmt" and r.c and strip_casts(r.c[0]) is not None and strip_casts(r.c[0]).v is None and any(f.dominates(i_, r) or True for i_ in installs)]
+    succ = [r for r in rets if any(fc_line(f, i_, r) for i_ in installs)]
+    redirect = lambda e: e.k == "BinaryOperator" and e.op == "=" and (access_path(e.c[0]) or "").endswith("orccode->exec") and \
+        ((access_path(strip_casts(e.c[1])) or "").endswith("code_exec") or "orc_executor_emulate" in unparse(e.c[1]))
+    for r in succ:
+        wit = path_to(f, r, lambda e: redirect(e) or (e.id in {i_.id for i_ in installs}))
+        rep.check(wit is None, rule, where(f), "orccode->exec@return:%s" % r.line,
+                  "every path to the success return either installs the code under target->executable or redirects orccode->exec to the fallback",
+                  "orc_compiler_compile_program can reach its success return (line %s) with orccode->exec still pointing at code of a non-executable target: "
+                  "a code-only executor (orc_executor_set_program taken code) calls it" % r.line, line=r.line)
+
+
+def fc_line(f, a, b):
+    """b is reachable after a in program order (a's block can reach b's)"""
+    pa, pb = f.pos(a), f.pos(b)
+    if pa is None or pb is None:
+        return False
+    seen, st = set(), [pa[0]]
+    while st:
+        x = st.pop()
+        if x in seen:
+            continue
+        seen.add(x)
+        if x == pb[0]:
+            return True
+        st.extend(s_ for s_ in f.blocks[x].succs if s_ is not None)
+    return False
